@@ -66,12 +66,14 @@ def tag_code(tag):
         return 10.0 * (int(j) + 1) + SCOPE_CODE[which]
     if tag.startswith("E"):          # namespaces of an Environment instance: E0, E1, …
         return 100.0 + int(tag[1:])
+    if tag == "PREV":                # bound by the extra_namespace of an EARLIER call (env_reuse)
+        return 9.0
     raise ValueError(tag)
 
 
 CODE_TAG = {}
 for _t in list(SCOPE_CODE) + [decoy_tag(w, j) for w in "LG" for j in range(N_FRAMES)] + \
-        [f"E{i}" for i in range(8)]:
+        [f"E{i}" for i in range(8)] + ["PREV"]:
     CODE_TAG[tag_code(_t)] = _t
 
 ARG_FORMS = {  # form -> (formula template, name, identifier?, var_names)
@@ -464,6 +466,17 @@ def run_impl(cfg, idx=0):
             out["var_names"] = sorted(model_description(cfg["formula"]).var_names)
         except Exception as e:  # noqa
             out["var_names"] = "error:" + type(e).__name__
+        if cfg["desc"].get("reuse"):
+            # the same Environment object was already used by an earlier call whose
+            # extra_namespace bound the name: nothing of that call may be visible now
+            prev = w.fn("PREV") if cfg["role"] == "callee" else w.vec("PREV")
+            try:
+                with contextlib.redirect_stdout(io.StringIO()):
+                    design_matrices(cfg["formula"], cfg["data"], env=cfg["env"],
+                                    extra_namespace={cfg["head"]: prev, "unrelated_prev__": 1})
+            except Exception:  # noqa
+                pass
+            del w.seen[:], w.calls[:], w.call_args[:]
         call = (design_matrices, (cfg["formula"], cfg["data"]),
                 {"env": cfg["env"], "extra_namespace": cfg["extra"], "na_action": "drop"})
         try:
@@ -610,6 +623,24 @@ def enumerate_cases(tier, builtins_keys):
             nested2 = [("vld", [("dict", None), ("vld", [])]), ("dict", "E5"), ("dict", "E6")]
             cases.append({"kind": "env_instance_nested", "role": role, "form": form, "subset": s,
                           "k": 0, "frames": "func", "decoys": True, "env": {"environment": nested2}})
+    # (9) one Environment object passed to two calls with different extra_namespace dicts
+    for role, form in (("arg", "plain"), ("callee", "plain"), ("callee", "dotted2")):
+        for n in (1, 2):
+            for defined in subsets("".join(str(i) for i in range(n))):
+                for s in ("", "X", "B", "D"):
+                    spec = [("dict", f"E{i}" if str(i) in defined else None) for i in range(n)]
+                    cases.append({"kind": "env_reuse", "role": role, "form": form, "subset": s,
+                                  "k": 0, "frames": "func", "decoys": True, "reuse": True,
+                                  "extra_none": s == "" and n == 2,
+                                  "env": {"environment": spec}})
+    # (10) names that are also Python builtins: the interpreter's builtins are not a scope
+    for nm in ("abs", "max", "id", "round"):
+        for role in ("arg", "callee"):
+            for k in (0, 1):
+                for s in ("", "X", "L", "G", "GX"):
+                    cases.append({"kind": "python_builtin_name", "role": role, "form": "plain",
+                                  "subset": s, "k": k, "frames": "func" if k == 0 else "exec",
+                                  "decoys": False, "name": nm})
     # (8) a scope binds the name to None / 0 / "" / False: it is a binding like any other
     for val in SPECIAL_VALUES:
         for k in (0, 1, 2):
